@@ -31,7 +31,8 @@ type spec struct {
 	Cfg      hist.Config `json:"cfg"`
 	Sched    Schedule    `json:"sched"`
 	MetaLoss bool        `json:"meta_loss,omitempty"` // history may contain one restart with the local meta directory lost (exercises the L0 download path under faults)
-	Demo     string      `json:"demo,omitempty"`      // scripted demonstration history (pinned at the front of the case list)
+	Demo     string      `json:"demo,omitempty"`      // scripted demonstration history (pinned at the front of the case list) / directed case class
+	Variant  string      `json:"variant,omitempty"`   // directed class: which compaction reads its sources from the replica
 }
 
 func init() {
@@ -43,7 +44,8 @@ func init() {
 			"faults: list/open/write/delete fail-before-effect, write/delete fail-after-effect (performed, error returned), short-read of the upload reader at byte k (partial body handed to the store or dropped), download reader error / premature EOF at byte o. " +
 			"Oracles: after EVERY client call the level-0 directory of the store is contiguous 1..max with single-TXID files, and at the start of and after every client call Replica.Pos() (what Store.SyncDB reports as ReplicatedTXID) does not exceed what the store holds; after every history step Restore(latest) through a plain file client succeeds (once anything is stored), is a committed ledger state (integrity ok, no poison, dump hash == H_k) and k never regresses; " +
 			"every nil SyncAndWait / Close has every level-0 file <= db.Pos() in the store and restores byte-identical (masked) to the source; after faults stop SyncAndWait succeeds within 3 tries, further writes replicate, restore == source. " +
-			"distinct = hash(config, schedule, op sequence); non-trivial = faults of >=2 different kinds were injected into WriteLTXFile calls",
+			"Directed class (6 quick / 60 thorough): compactions whose sources are downloaded from the replica (L1->L2, L2->L3, L0->L1 after a restart without the meta directory) while every source download breaks (error / premature EOF by PRNG) at a PRNG offset behind its LTX header and never recovers, then faults stop and the compaction is retried. After every WriteLTXFile call every file newly published under a final name on the replica must decode, verify (CRC) and agree with its name. " +
+			"distinct = hash(config, schedule, op sequence); non-trivial = faults of >=2 different kinds were injected into WriteLTXFile calls (directed class: >=4 late download faults delivered and a compaction gave up after the reconnect budget)",
 		Assumptions: []string{"file replica client only (no network); faults are injected at the ReplicaClient interface", "L0 retention is off (L0Retention=24h) so that the level-0 listing must start at 1", "ledger dump hash identifies a committed state (sha256)", "ltx decoder/LZ4 trusted"},
 		Cases:       cases,
 		RunCase:     runCase,
@@ -66,6 +68,21 @@ func cases(run *vf.Run) ([]json.RawMessage, error) {
 	// demonstration case: a snapshot reaches the replica while level-0 uploads
 	// keep failing, then the process restarts without its meta directory
 	out = append(out, vf.Spec(spec{Seed: 2, Ops: 0, Cfg: hist.Config{PageSize: 4096, MinCheckpointPageN: 1000, CheckpointInterval: int64(24 * time.Hour)}, Sched: Schedule{Target: OpWrite}, Demo: "snapshot-ahead-of-l0-then-meta-loss"}))
+	// directed class: compactions whose SOURCES are downloaded from the replica
+	// (level 1 -> 2, 2 -> 3, or 0 -> 1 after the local meta directory was lost)
+	// while every source download breaks behind its header and never recovers
+	nd := 6
+	if run.Tier == "thorough" {
+		nd = 60
+	}
+	for i := 0; i < nd; i++ {
+		rng := rand.New(rand.NewSource(vf.SubSeed(run.Seed, "C05-compact", i)))
+		cfg := hist.RandomConfig(rng)
+		cfg.PageSize = hist.PageSizes[(i*5+2)%len(hist.PageSizes)]
+		cfg.MaxSyncLTXFiles = 0
+		out = append(out, vf.Spec(spec{Seed: vf.SubSeed(run.Seed, "C05-compact-case", i), Cfg: cfg, Sched: Schedule{Rate: 1, Target: OpOpen, PageArea: true},
+			Demo: "compaction-source-download-faults", Variant: []string{"l1-l2", "l0-l1-after-meta-loss", "l2-l3"}[i%3]}))
+	}
 	for i := 0; i < n; i++ {
 		rng := rand.New(rand.NewSource(vf.SubSeed(run.Seed, "C05", i)))
 		cfg := hist.RandomConfig(rng)
@@ -168,6 +185,9 @@ func runCase(run *vf.Run, raw json.RawMessage, dir string) *vf.Result {
 		evals int
 		gap   string
 		ahead string
+
+		verified int
+		invalid  string
 	}
 	var cur atomic.Pointer[litestream.DB] // the litestream.DB object currently in use
 	cur.Store(e.LS)
@@ -195,16 +215,67 @@ func runCase(run *vf.Run, raw json.RawMessage, dir string) *vf.Result {
 			cb.ahead = ahead
 		}
 	}
+	// Every *.ltx under a final name on the replica is complete: it decodes,
+	// its checksums verify and its header agrees with its name. Each published
+	// file (path, size, mtime) is decoded once, right after the client call
+	// that made it appear.
+	var ver struct {
+		sync.Mutex
+		done map[string]bool
+	}
+	ver.done = map[string]bool{}
+	verifyStore := func() (n int, bad string) {
+		ver.Lock()
+		defer ver.Unlock()
+		for _, f := range oracle.ListAll(e.RepPath) {
+			fi, err := os.Stat(f.Path)
+			if err != nil {
+				continue // deleted meanwhile
+			}
+			id := fmt.Sprintf("%s|%d|%d", f.Path, fi.Size(), fi.ModTime().UnixNano())
+			if ver.done[id] {
+				continue
+			}
+			ver.done[id] = true
+			n++
+			lf, err := oracle.DecodeLTX(f.Path)
+			switch {
+			case err != nil:
+				if _, serr := os.Stat(f.Path); serr != nil {
+					continue // vanished while it was being read
+				}
+				if bad == "" {
+					bad = fmt.Sprintf("file %s (%d bytes) is published on the replica under its final name but does not decode/verify: %v", f, fi.Size(), err)
+				}
+			case int(lf.Hdr.MinTXID) != f.Min || int(lf.Hdr.MaxTXID) != f.Max:
+				if bad == "" {
+					bad = fmt.Sprintf("file %s on the replica has header TXIDs %d-%d", f, lf.Hdr.MinTXID, lf.Hdr.MaxTXID)
+				}
+			}
+		}
+		return n, bad
+	}
 	px.AfterCall = func(c Call) {
 		max, bad := l0Contiguous(e.RepPath)
 		ahead := ""
 		if bad == "" {
 			ahead = posAhead("after", c, max)
 		}
+		nver, invalid := 0, ""
+		if c.Op == OpWrite {
+			nver, invalid = verifyStore()
+			if invalid != "" {
+				invalid = fmt.Sprintf("after client call {%s}: %s", c, invalid)
+			}
+		}
 		cb.Lock()
 		defer cb.Unlock()
 		cb.log = append(cb.log, "  client "+c.String())
-		cb.evals += 2
+		cb.evals += 2 + nver
+		cb.verified += nver
+		if invalid != "" && cb.invalid == "" {
+			cb.invalid = invalid
+		}
 		if bad != "" && cb.gap == "" {
 			cb.gap = fmt.Sprintf("after client call {%s}: %s", c, bad)
 		}
@@ -221,7 +292,12 @@ func runCase(run *vf.Run, raw json.RawMessage, dir string) *vf.Result {
 		}
 		res.Evals += cb.evals
 		res.Count("client_call_checks", cb.evals)
-		cb.log, cb.evals = nil, 0
+		res.Count("published_files_verified", cb.verified)
+		cb.log, cb.evals, cb.verified = nil, 0, 0
+		if cb.invalid != "" && !gapReported {
+			gapReported = true
+			res.Violate(fp("published-file-invalid"), "%s [%s; %s]", cb.invalid, s.Sched, s.Cfg)
+		}
 		if cb.ahead != "" && !gapReported {
 			gapReported = true
 			res.Violate(fp("replicated-position-ahead-of-store"), "%s [%s; %s]", cb.ahead, s.Sched, s.Cfg)
@@ -402,6 +478,120 @@ func runCase(run *vf.Run, raw json.RawMessage, dir string) *vf.Result {
 		if !stepCheck("demo") {
 			return res
 		}
+	}
+	if s.Demo == "compaction-source-download-faults" {
+		px.Enable(false)
+		step := 0
+		next := func() { px.BeginStep(step, vf.SubSeed(s.Seed, "step", step)); step++ }
+		writeSync := func(n int) bool {
+			for j := 0; j < n; j++ {
+				next()
+				kind := []string{"ins-small", "ins-multi", "ins-big", "update", "delete-half", "ins-small"}[rng.Intn(6)]
+				if _, err := e.AppWriteKind(kind); err != nil {
+					res.HarnessErr = err.Error()
+					return false
+				}
+				if _, ok := syncAndWait(fmt.Sprintf("directed op%d SyncAndWait", step)); !ok {
+					return false
+				}
+				if !flush() {
+					return false
+				}
+			}
+			return true
+		}
+		compact := func(lvl int, faulted bool) error {
+			next()
+			_, err := e.LS.Compact(ctx, lvl)
+			e.Logf("Compact(%d) err=%v (source downloads failing=%v)", lvl, err, faulted)
+			switch {
+			case err == nil:
+				res.Count(fmt.Sprintf("directed_compact%d_ok_faulted_%v", lvl, faulted), 1)
+			case err != litestream.ErrNoCompaction:
+				res.Count(fmt.Sprintf("directed_compact%d_failed_faulted_%v", lvl, faulted), 1)
+				if faulted && strings.Contains(err.Error(), "max retries exceeded") {
+					res.Count("directed_compact_sources_exhausted", 1)
+				}
+			}
+			return err
+		}
+		src, dst := 1, 2
+		rounds := 2 + rng.Intn(2)
+		switch s.Variant {
+		case "l1-l2":
+			for r := 0; r < rounds; r++ {
+				if !writeSync(2 + rng.Intn(2)) {
+					return res
+				}
+				compact(1, false)
+			}
+		case "l2-l3":
+			src, dst = 2, 3
+			for r := 0; r < rounds; r++ {
+				for q := 0; q < 2; q++ {
+					if !writeSync(1 + rng.Intn(2)) {
+						return res
+					}
+					compact(1, false)
+				}
+				compact(2, false)
+			}
+		case "l0-l1-after-meta-loss":
+			// after the restart only the fetched baseline exists locally: the
+			// level-0 sources of the next Compact(1) come from the replica
+			src, dst = 0, 1
+			if !writeSync(3 + rng.Intn(4)) {
+				return res
+			}
+			next()
+			if !closeAndReopen("directed restart", 2) {
+				return res
+			}
+			if !writeSync(1 + rng.Intn(2)) {
+				return res
+			}
+		default:
+			res.HarnessErr = "unknown variant " + s.Variant
+			return res
+		}
+		if !flush() || !stepCheck("directed: built") {
+			return res
+		}
+		e.Logf("  state: local L0 max=%d; store %v", localPos(), e.ReplicaFiles())
+		sc := s.Sched
+		sc.LevelMask = 1 << uint(src)
+		px.SetSchedule(sc)
+		px.Enable(true)
+		e.Logf("every download of a level-%d file now breaks behind its header (persistent)", src)
+		for a, n := 0, 1+rng.Intn(2); a < n; a++ {
+			before := px.NumCalls()
+			compact(dst, true)
+			if !flush() {
+				return res
+			}
+			if px.NumCalls() != before && !stepCheck(fmt.Sprintf("directed: after Compact(%d) with failing source downloads", dst)) {
+				return res
+			}
+			if a == 0 && rng.Intn(2) == 0 { // uploads and listings still work
+				if !writeSync(1) {
+					return res
+				}
+			}
+		}
+		px.Enable(false)
+		e.Logf("faults stop")
+		err := compact(dst, false)
+		if !flush() || !stepCheck(fmt.Sprintf("directed: Compact(%d) retried after faults stopped (err=%v)", dst, err)) {
+			return res
+		}
+		if dst < 3 {
+			compact(dst+1, false)
+			if !flush() || !stepCheck(fmt.Sprintf("directed: Compact(%d) after faults stopped", dst+1)) {
+				return res
+			}
+		}
+		ops = append(ops, "directed-"+s.Variant)
+		px.SetSchedule(s.Sched)
 	}
 	if s.Demo == "baseline-download-premature-eof" {
 		// three replicated transactions, restart without the local meta
@@ -659,6 +849,9 @@ func runCase(run *vf.Run, raw json.RawMessage, dir string) *vf.Result {
 	res.Count("schedule:"+s.Sched.String(), 1)
 	res.Sig = fmt.Sprintf("%x", sha256.Sum256([]byte(s.Cfg.String()+s.Sched.String()+strings.Join(ops, ","))))[:16]
 	res.Nontrivial = writeKinds >= 2
+	if s.Demo == "compaction-source-download-faults" {
+		res.Nontrivial = faults[OpOpen+":"+KindMidStream]+faults[OpOpen+":"+KindEarlyEOF] >= 4 && res.Counters["directed_compact_sources_exhausted"] >= 1
+	}
 	res.Sample = map[string]any{"cfg": s.Cfg.String(), "schedule": s.Sched.String(), "ops": strings.Join(ops, " "), "faults": strings.Join(fk, " "), "final_k": e.K}
 	return res
 }
